@@ -198,7 +198,7 @@ class FrameField2DFaces(_BaseFrameField2DFaces) :
             # Build fixed and variable indexes
             self.log("Feature element detected (border and/or feature edges)")
 
-            fixed = self.mesh.faces.create_attribute("fixed", bool)
+            fixed = ArrayAttribute(bool, len(self.mesh.faces)) # local: a 'fixed' attribute left on the mesh by an earlier field must not leak in
             for ie in self.feat.feature_edges:
                 u,v = self.mesh.edges[ie]
                 T1,T2 = self.mesh.connectivity.edge_to_faces(u,v)
